@@ -13,3 +13,9 @@ func VerifTagsToSections() func(content []byte, tags []*ctags.Entry) ([]Document
 	var t tagsToSections
 	return t.Convert
 }
+
+// VerifParseSymbols runs parseSymbols (ctags process → tagsToSections.Convert → doc.Symbols) over docs with the given
+// universal-ctags binary. Verification hook; not part of the normal build.
+func VerifParseSymbols(docs []*Document, universalCTagsBin string) error {
+	return parseSymbols(docs, ctags.LanguageMap{}, ctags.ParserBinMap{ctags.UniversalCTags: universalCTagsBin})
+}
